@@ -94,7 +94,8 @@ class PathCtx:
             spec = native(cz) if callable(native) else native
         except Unreplayable as e:
             spec = {"kind": "unreplayable", "why": str(e)}
-        kinds = [st.outcome.kind for st in self.scn.log[:upto]] if self.scn is not None else None
+        kinds = [(st.outcome.kind if st.op != "par" else [[x.outcome.kind for x in lg] for lg in st.params["procs"]])
+                 for st in self.scn.log[:upto]] if self.scn is not None else None
         if shim is not None and kinds is not None:
             kinds = kinds[:shim["step"]] + ["crash"]
         c = Candidate(self.task["family"], sig, desc, scenario, spec, [d[2] + "=" + str(d[0]) for d in w.decisions][-40:], mv, kinds)
@@ -301,6 +302,37 @@ def native_holds(spec, obs, tree, scenario):
     if k == "tree_eq_outside_untouched":
         # natively only the scenario root is observable: everything outside cache/ must be what the scenario put there
         return None
+    if k == "par_outcome_in":
+        ob = obs[spec["step"]] if spec["step"] < len(obs) else None
+        if ob is None or ob.get("diverged"):
+            return None
+        try:
+            o = ob["value"]["par"][spec["proc"]][-1]
+        except (KeyError, IndexError):
+            return None
+        return o.get("outcome") in spec["allowed"]
+    if k == "serial_equiv":
+        # the concurrent run (obs) against native runs of the same operations one after the other
+        ps = spec["par_step"]
+        if ps >= len(obs) or obs[ps].get("diverged") or obs[ps].get("outcome") != "ok":
+            return None
+        try:
+            conc_ops = [_norm_obs(lg[-1]) for lg in obs[ps]["value"]["par"]]
+        except (KeyError, IndexError):
+            return None
+        conc_after = [_norm_obs(o) for o in obs[ps + 1:]]
+        n_ops, first = spec["n_ops"], spec["first_op_step"]
+        for od in spec["orders"]:
+            sobs, _ = run_native(od["scenario"], od["scenario"].get("flavour", scenario.get("flavour", "sync")))
+            if len(sobs) < first + n_ops:
+                return None
+            seq_ops = [None] * n_ops
+            for pos, i in enumerate(od["order"]):
+                seq_ops[i] = _norm_obs(sobs[first + pos])
+            seq_after = [_norm_obs(o) for o in sobs[first + n_ops:]]
+            if seq_ops == conc_ops and seq_after == conc_after:
+                return True
+        return False
     if k == "tree_eq_cache_empty":
         if tree is None:
             return None
@@ -310,6 +342,20 @@ def native_holds(spec, obs, tree, scenario):
             return None
         return _tree_norm(tree) == spec["tree"]
     raise ValueError("unknown native spec %r" % (spec,))
+
+
+def _norm_obs(o):
+    """An observation without step numbers and wall-clock times, listings in a canonical order."""
+    if isinstance(o, dict):
+        d = {k: _norm_obs(v) for k, v in o.items() if k not in ("step", "time", "message", "stderr")}
+        if "list" in d and isinstance(d["list"], list):
+            d["list"] = sorted(d["list"], key=lambda j: json.dumps(j, sort_keys=True))
+        if "err" in d and isinstance(d["err"], dict):
+            d["err"] = {k: v for k, v in d["err"].items() if k in ("variant", "io_kind", "wanted", "actual")}
+        return d
+    if isinstance(o, list):
+        return [_norm_obs(x) for x in o]
+    return o
 
 
 def _tree_norm(tree):
@@ -504,6 +550,19 @@ def replay_candidate(c, task):
                 break
             ok_ = obs[i].get("outcome")
             if ok_ == "unsupported":
+                continue
+            if obs[i].get("diverged"):
+                diverged = (i, "schedule", obs[i]["diverged"])
+                break
+            if isinstance(k, list):
+                # a concurrent section: the outcome class of every member operation
+                try:
+                    got = [[o.get("outcome") for o in lg] for lg in obs[i]["value"]["par"]]
+                except (KeyError, TypeError):
+                    got = None
+                if got != k:
+                    diverged = (i, k, got)
+                    break
                 continue
             if ok_ != k and not (k in ("panic", "abort", "hang") and ok_ in ("panic", "abort", "hang")):
                 diverged = (i, k, ok_)
